@@ -335,6 +335,27 @@ pub fn archives(seed: u64, thorough: bool) -> Vec<Arch> {
             }
         }
     }
+    // the writer's sink already holds more bytes than the archive will occupy (a pre-sized buffer, a file opened without
+    // truncation): the produced bytes are the whole sink; the stream must still end its entries at the central directory
+    {
+        let comps: Vec<(&'static str, Vec<Call>)> = crate::props::c02::composites(seed).into_iter().filter(|c| !c.0.starts_with("zipcrypto")).collect();
+        let src = crate::props::c02::sources(seed);
+        for (fill, flabel) in [(0u8, "zeros"), (0xEE, "0xEE")] {
+            for size in [4096usize, 32768] {
+                for k in [0usize, 3, 7] {
+                    let mut calls = vec![];
+                    for c in comps.iter().skip(k).take(3) {
+                        calls.extend(c.1.iter().cloned());
+                    }
+                    calls.push(Call::Finish);
+                    let (res, bytes) = exec_into(&calls, &src, vec![fill; size]);
+                    if res.iter().all(|r| r.is_ok()) {
+                        add(format!("writer-into-presized-sink:{size}x{flabel}:composites {k}.."), bytes, None, json!({"calls": calls_json(&calls), "sink": {"size": size, "fill": fill}}), None);
+                    }
+                }
+            }
+        }
+    }
     // builder: streamable layouts
     let content = b"streamable builder entry, streamable builder entry".to_vec();
     for (k, (m, le, ce, cm)) in [(0u16, false, false, false), (8, true, false, true), (12, false, true, false), (93, true, true, true)].iter().enumerate() {
